@@ -335,4 +335,92 @@ theorem lookup_mem (m : TypeMap) (k : String) (t : TlsType) (h : lookupType m k 
       subst this h
       exact List.mem_cons_self
 
+/-! ### insertion sort sorts (byte-wise order is asymmetric and transitive) -/
+
+theorem bytesLt_asymm : ∀ (a b : Bytes), bytesLt a b = true → bytesLt b a = false
+  | [], [], h => by simp [bytesLt] at h
+  | [], _ :: _, _ => by simp [bytesLt]
+  | _ :: _, [], h => by simp [bytesLt] at h
+  | x :: xs, y :: ys, h => by
+    simp only [bytesLt] at h ⊢
+    by_cases h1 : x < y
+    · have h2 : ¬ y < x := by
+        intro h2; exact absurd (UInt8.lt_trans h1 h2) (UInt8.lt_irrefl x)
+      simp [h2, h1]
+    · by_cases h2 : y < x
+      · simp [h1, h2] at h
+      · simp only [h1, h2, if_false] at h ⊢
+        exact bytesLt_asymm xs ys h
+
+theorem bytesLt_trans : ∀ (a b c : Bytes), bytesLt a b = true → bytesLt b c = true → bytesLt a c = true
+  | [], [], _, h, _ => by simp [bytesLt] at h
+  | [], _ :: _, [], _, h => by simp [bytesLt] at h
+  | [], _ :: _, _ :: _, _, _ => by simp [bytesLt]
+  | _ :: _, [], _, h, _ => by simp [bytesLt] at h
+  | _ :: _, _ :: _, [], _, h => by simp [bytesLt] at h
+  | x :: xs, y :: ys, z :: zs, h1, h2 => by
+    simp only [bytesLt] at h1 h2 ⊢
+    by_cases a1 : x < y
+    · by_cases b1 : y < z
+      · simp [UInt8.lt_trans a1 b1]
+      · by_cases b2 : z < y
+        · simp [b1, b2] at h2
+        · have : y = z := UInt8.le_antisymm (UInt8.not_lt.mp b2) (UInt8.not_lt.mp b1)
+          subst this
+          simp [a1]
+    · by_cases a2 : y < x
+      · simp [a1, a2] at h1
+      · have : x = y := UInt8.le_antisymm (UInt8.not_lt.mp a2) (UInt8.not_lt.mp a1)
+        subst this
+        simp only [a1, if_false] at h1
+        by_cases b1 : x < z
+        · simp [b1]
+        · by_cases b2 : z < x
+          · simp [b1, b2] at h2
+          · simp only [b1, b2, if_false] at h2 ⊢
+            exact bytesLt_trans xs ys zs h1 h2
+
+def sortedBy {α : Type} (lt : α → α → Bool) (l : List α) : Prop := l.Pairwise (fun a b => lt b a = false)
+
+theorem insertBy_sorted {α : Type} (lt : α → α → Bool)
+    (asymm : ∀ a b, lt a b = true → lt b a = false)
+    (trans : ∀ a b c, lt a b = true → lt b c = true → lt a c = true)
+    (x : α) : ∀ l : List α, sortedBy lt l → sortedBy lt (insertBy lt x l)
+  | [], _ => by simp [insertBy, sortedBy]
+  | y :: ys, h => by
+    unfold insertBy
+    simp only [sortedBy, List.pairwise_cons] at h
+    split
+    · rename_i hxy
+      simp only [sortedBy, List.pairwise_cons]
+      refine ⟨?_, h⟩
+      intro z hz
+      rcases List.mem_cons.mp hz with e | hz
+      · subst e; exact asymm _ _ hxy
+      · cases hzx : lt z x with
+        | false => rfl
+        | true =>
+          have := trans z x y hzx hxy
+          rw [h.1 z hz] at this
+          cases this
+    · rename_i hxy
+      have ih := insertBy_sorted lt asymm trans x ys h.2
+      simp only [sortedBy, List.pairwise_cons]
+      refine ⟨?_, ih⟩
+      intro z hz
+      have hz' := (insertBy_perm lt x ys).mem_iff.mp hz
+      rcases List.mem_cons.mp hz' with e | hz'
+      · subst e; simpa using hxy
+      · exact h.1 z hz'
+
+theorem sortBy_sorted {α : Type} (lt : α → α → Bool)
+    (asymm : ∀ a b, lt a b = true → lt b a = false)
+    (trans : ∀ a b c, lt a b = true → lt b c = true → lt a c = true) :
+    ∀ l : List α, sortedBy lt (sortBy lt l)
+  | [] => by simp [sortBy, sortedBy]
+  | x :: xs => by
+    unfold sortBy
+    exact insertBy_sorted lt asymm trans x _ (sortBy_sorted lt asymm trans xs)
+
+
 end TLVerif.Tlomig
